@@ -101,7 +101,18 @@ pub fn run_batch(
                     let end = if budget.is_none() { (b + BLOCK).min(runs) } else { b + BLOCK };
                     for idx in b..end {
                         let (seed, case) = gen_case(s, master, tier, idx);
-                        let mut out: RunOut = (s.run)(&case, false);
+                        let mut out: RunOut = match crate::fe::guarded(|| (s.run)(&case, false)) {
+                            Ok(o) => o,
+                            Err(m) => {
+                                let mut o = RunOut::default();
+                                o.evals = 1;
+                                o.violate(
+                                    format!("{}:panic-outside-library-call", s.property),
+                                    format!("a value returned by the library made the harness panic while inspecting it (e.g. Debug/accessor on a packet that breaks its invariants): {m}"),
+                                );
+                                o
+                            }
+                        };
                         // fold the verdict into the hash: evaluations, violations, probes
                         out.mix(&out.evals.to_le_bytes());
                         let sigs: Vec<String> = out.violations.iter().map(|v| v.signature.clone()).collect();
